@@ -221,4 +221,6 @@ def check(fx, rep, tier):
     for cfg in ['full'] + (['ws', 'nostd'] if tier == 'thorough' else []):
         check_crate(fx, rep, fx.crate('zlink_core', cfg), cfg)
         import_failure_atomicity(fx, rep, fx.crate('zlink_core', cfg), cfg)
+    import imports as _imp
+    _imp.layer(fx, rep, 'C17')
     return META
